@@ -462,7 +462,8 @@ class NumParam(BaseParam):
             else:
                 value = self.default
 
-        if isinstance(value, float):
+        # integers (e.g., from an xlsx cell) are checked like the floats they will be stored as
+        if isinstance(value, (int, float, np.integer, np.floating)) and not isinstance(value, (bool, np.bool_)):
             # check for non-zero
             if value == 0.0 and self.get_property('non_zero'):
                 logger.warning('Non-zero parameter %s.%s corrected to %s',
